@@ -149,7 +149,7 @@ where
             encoding,
             from_header.line_encoding(),
             comp_dir,
-            comp_name,
+            comp_name.clone(),
             comp_file_info,
         );
 
@@ -161,8 +161,11 @@ where
             // something there makes the indexing easier.
             0
         } else {
-            // We don't add the first file to `files`, but still allow
-            // it to be referenced from converted instructions.
+            // Rows of a version 5 program may name file 0, the primary file.
+            // Keep an entry for it, so that `files` is indexed by the file
+            // index of the input.
+            let default_directory = program.default_directory();
+            files.push(program.add_file(comp_name, default_directory, comp_file_info));
             1
         };
 
@@ -259,13 +262,18 @@ where
                                     program.row().op_index = from_row.op_index();
                                     program.row().file = {
                                         let file = from_row.file_index();
-                                        if file > files.len() as u64 {
+                                        // `files` starts at file 1 for version <= 4 (where file 0
+                                        // is invalid) and at file 0 from version 5 on.
+                                        let index = if program.version() <= 4 {
+                                            file.checked_sub(1)
+                                                .ok_or(write::ConvertError::InvalidFileIndex)?
+                                        } else {
+                                            file
+                                        };
+                                        if index >= files.len() as u64 {
                                             return Err(write::ConvertError::InvalidFileIndex);
                                         }
-                                        if file == 0 && program.version() <= 4 {
-                                            return Err(write::ConvertError::InvalidFileIndex);
-                                        }
-                                        files[(file - 1) as usize]
+                                        files[index as usize]
                                     };
                                     program.row().line = match from_row.line() {
                                         Some(line) => line.get(),
